@@ -178,7 +178,7 @@ func init() {
 		Rule:   "jobs drawn from the seed: 2..16 worker goroutines x 2..4 generated scripts each (13 templates: entitlement-mapped member access, casts and run-time types, Account built-ins, attachments, resources and events, fully entitled `result`, entitlements through interfaces and intersection types, members of built-in types, ill-typed and failing programs) over a shared program cache; 1/3 of the jobs run in mode S (seeded scheduler, one worker released per runtime.Interface callback, executed twice to confirm the schedule is a function of the seed), 2/3 in mode R (fresh -race process with cold caches, GOMAXPROCS 2/4/16; in half of the mode-R jobs the first script of every worker instantiates the same template, so that all workers reach the same cold lazily initialised caches together); oracle: every script behaves as when run alone (after the concurrent phase), no race report, no crash; distinct by (mode, engine, workers, seed)",
 		Worker: c36Worker}
 	checks["C30"] = &CheckSpec{Prop: "C30", Level: "exploration", QuickBudget: 60 * time.Second, ThoroughBudget: 10 * time.Minute, Assumptions: []string{realStub, "the metering limits are realised as gauge budgets (the n-th metering call and every later one fails), the call-depth limit through Config.StackDepthLimit"}, DeathIsViolation: true,
-		Rule:   "runaway corpus (11 unbounded loops / growth programs, 9 recursion shapes: functions, mutual, struct / resource initialisers, default functions, conditions, attachments, script functions) x engine x (computation | memory budget drawn around 0, 40, 700, 9e3, 1.2e5 metering calls) and x configured call-depth limit (default, 50, 300) x recursion depth around the limit; each trial in a worker process with a 180 s watchdog; a hang or a dead worker process is reported as the violation; distinct by (program, engine, budget, depth, limit)",
+		Rule:   "runaway corpus (11 unbounded loops / growth programs, 9 recursion shapes: functions, mutual, struct / resource initialisers, default functions, conditions, attachments, script functions) x engine x (computation | memory budget drawn around 0, 40, 700, 9e3, 1.2e5 metering calls) and x configured call-depth limit (default, 50, 300) x recursion depth around the limit; each trial in a worker process with a watchdog of 180 s + 60 us per unit of the budget; a hang or a dead worker process is reported as the violation; distinct by (program, engine, budget, depth, limit)",
 		Worker: c30Worker}
 	checks["C27"] = &CheckSpec{Prop: "C27", Level: "exploration", QuickBudget: 60 * time.Second, ThoroughBudget: 10 * time.Minute, Assumptions: []string{realStub},
 		Rule:   "every mutation of a fixed grammar of 45 contract-update mutations (field add/remove/retype/reorder/rename, access and let changes, conformance add/remove, kind change, nested declaration add/remove with and without #removedType, enum case add/remove/reorder/rename, raw type change, interface changes) x engine (interp, vm) x update|tryUpdate x restart|warm process; history: deploy v1, store struct / array / dictionary / resource / enum / interface-typed instances in two accounts, update, (restart), probe script generated from the new declaration; a trial is non-trivial always; distinct by (mutation, engine, via, restart)",
